@@ -303,8 +303,11 @@ def build(tier):
     # reader / writer symmetry of every serialisable class (field sequences derived from the ASTs of both bodies)
     sym_targets, sym_summary = symmetry.targets()
     targets += sym_targets
+    # the tensor reader once more, on back end B (integers with their own * and div): the dims guard in both directions
+    import guard
+    guard_vcs, guard_fns = guard.build(tier)
     return {
-        'targets': targets, 'vcs': lemma_vcs(),
+        'targets': targets, 'vcs': lemma_vcs() + guard_vcs, 'functions': guard_fns,
         'decided': [
             'tensor reader (double rank 1/2/4, int64 rank 1; NO assumption on the header dims since the repair 81b3596): the reader itself rejects a negative dimension and an overflowing '
             'element / byte count without touching the tensor (resize is reached at most once and only with validated dims); never reports good a stream that had failed or is short; accepted => version, rank, sizeof(scalar) '
